@@ -7,7 +7,7 @@
    double-dot spelling.  (A TAB inside "..", as in ".<TAB>.", IS resolved as a double dot - the Input iterator drops
    it - which is why the condition is on the characters and not on the segment list.) *)
 From RU Require Import Base.Prelude Base.Utf8 Base.Utf8Facts Model.AsciiSet Gen.Tables
-  Model.PercentEncoding Model.HostT Model.UrlRecord Model.Parser Model.Cost
+  Model.PercentEncoding Model.HostT Model.UrlRecord Model.Parser Model.Setters Model.Cost
   Proofs.ListN Proofs.C14_Set Proofs.C14_Enc Proofs.C14_Views Proofs.C02_Path Proofs.C01_EqDots Proofs.C04_Cost Proofs.C04_CostPathUp.
 
 Definition dotfree (t : list N) : Prop := Forall (fun c => c <> 46 /\ c <> 37) t.
@@ -139,5 +139,35 @@ Proof.
   pose proof (path_cost_linear_no_dd dbg ctx st ps l ser (nlen ser) [] hh Hl (Forall_nil _)
                 (dd_count_dotfree ctx st ps l Hf ser (nlen ser) [] hh Hl Hd (Forall_nil _) (Forall_nil _) (seg_units_end ser))) as H.
   change (nlen []) with 0 in H. lia.
+Qed.
+
+(* the same without the serialization term: for a non-file scheme type the cost of one parse_path call does not depend
+   on the text in front of it *)
+Theorem parse_path_linear_dotfree_nofile ctx st hh ps ser l : st_is_file st = false -> usv_list l -> dotfree l ->
+  snd (parse_path_c dbg ctx st hh ps ser l) <= 18 * nlen l + 5.
+Proof.
+  intros Hf Hl Hd. unfold parse_path_c.
+  pose proof (path_cost_upper dbg ctx st ps l ser (nlen ser) [] hh Hl (Forall_nil _)) as H.
+  rewrite (dd_count_dotfree ctx st ps l Hf ser (nlen ser) [] hh Hl Hd (Forall_nil _) (Forall_nil _) (seg_units_end ser)) in H.
+  unfold fix_bound in H. rewrite Hf in H. change (nlen []) with 0 in H. lia.
+Qed.
+
+(* PathSegmentsMut::extend outside finding F-C04-6 (file: URLs): for a non-file scheme type and '.'-free, '%'-free
+   segments the whole call is linear in the segments - 18 per character and 7 per segment *)
+Definition total_len (segs : list (list N)) : N := fold_right (fun s a => nlen s + a) 0 segs.
+
+Theorem extend_linear_dotfree st ps segs : st_is_file st = false -> Forall usv_list segs -> Forall dotfree segs ->
+  forall s, snd (psm_extend_loop_c dbg st ps s segs) <= 18 * total_len segs + 7 * nlen (map nlen segs) + 1.
+Proof.
+  intros Hf. induction segs as [|seg rest IH]; intros Hu Hd s; cbn [psm_extend_loop_c]; [cbn; lia|].
+  inversion Hu as [|? ? Hu1 Hur]; subst. inversion Hd as [|? ? Hd1 Hdr]; subst.
+  cbn [map total_len fold_right]. fold (total_len rest). rewrite nlen_cons.
+  destruct (list_eqb seg [46] || list_eqb seg [46; 46]).
+  - specialize (IH Hur Hdr s). destruct (psm_extend_loop_c dbg st ps s rest) as [o n]. cbn [snd] in *. lia.
+  - set (s1 := if (ps + 1 <? nlen s) || (nlen s =? ps) then s ++ [47] else s).
+    pose proof (parse_path_linear_dotfree_nofile CPathSegmentSetter st true ps s1 seg Hf Hu1 Hd1) as Hc.
+    destruct (parse_path_c dbg CPathSegmentSetter st true ps s1 seg) as [o c]. cbn [snd] in Hc.
+    destruct o as [[[s2 h2] r2]| |]; cbn [snd]; try lia.
+    specialize (IH Hur Hdr s2). destruct (psm_extend_loop_c dbg st ps s2 rest) as [o2 n2]. cbn [snd] in *. lia.
 Qed.
 End NoDD.
